@@ -79,6 +79,8 @@ def gen_cases(tier, seed):
             yield {'family': fam, 'idx': i, 'seed': seed}
     for i in range(4):
         yield {'family': 'legacy_encoding', 'idx': i, 'seed': seed}
+    for i in range(2):
+        yield {'family': 'long_cell_late', 'idx': i, 'seed': seed}
 
 
 def write_csv(path, header, rows, lineterminator, delimiter=','):
@@ -105,6 +107,8 @@ def run_case(case):
         return run_package(case, rng, d, counters, cov, viol)
     if fam == 'legacy_encoding':
         return run_legacy_encoding(case, rng, d, counters, cov, viol)
+    if fam == 'long_cell_late':
+        return run_long_cell_late(case, rng, d, counters, cov, viol)
     if fam == 'cast_strings' and case['idx'] % 3 == 0:
         return run_typed_source_strings(case, rng, d, counters, cov, viol)
     ncols = rng.randint(1, 6)
@@ -396,6 +400,30 @@ LEGACY = {
     'shift_jis': ['東京都新宿区西新宿', '大阪府大阪市北区梅田', 'これは日本語のテキストです', '私は学生です。よろしくお願いします'],
     'euc_kr': ['서울특별시 강남구 테헤란로', '부산광역시 해운대구', '이것은 한국어 텍스트입니다', '오늘 날씨가 좋습니다'],
 }
+
+
+def run_long_cell_late(case, rng, d, counters, cov, viol):
+    """A cell longer than csv's default field limit (131072) far beyond the rows load samples when it opens the file."""
+    n, at = 1500, [1200, 1499][case['idx'] % 2]
+    path = 'late_long_%d.csv' % at
+    with open(path, 'w', newline='') as f:
+        f.write('id,text\n')
+        for i in range(n):
+            f.write('%d,%s\n' % (i, ('L' * 200000) if i == at else 'short%d' % i))
+    cfg = {'family': 'long_cell_late', 'rows': n, 'long_cell_at_row': at}
+    cov['options']['long_cell_at_row_%d_of_%d' % (at, n)] = 1
+    got = lab.run([d.load(path, infer_strategy=d.load.INFER_STRINGS)], validate=True)
+    counters['cells_compared'] += 2 * n
+    if not got.ok:
+        viol.append({'kind': 'unexpected_error', 'mech': 'long_cell_late/failed', 'config': cfg,
+                     'msg': '%r: load failed: %s' % (cfg, got.errstr()[-200:])})
+    else:
+        rows = got.results[0]
+        if len(rows) != n or rows[at]['text'] != 'L' * 200000 or rows[at - 1]['text'] != 'short%d' % (at - 1):
+            viol.append({'kind': 'row_count', 'mech': 'long_cell_late/rows', 'config': cfg,
+                         'msg': '%r: %d rows loaded, the long cell has %d characters' % (
+                             cfg, len(rows), len(rows[at]['text']) if len(rows) > at else -1)})
+    return dict(nontrivial=True, violations=viol, cov=cov, counters=counters, sample={'config': cfg})
 
 
 def run_legacy_encoding(case, rng, d, counters, cov, viol):
